@@ -76,6 +76,7 @@ type kase struct {
 	Note string `json:"note,omitempty"`
 	// family (g): the source is a complete program by construction; Alt is the same operand at the
 	// neutral site (parsed once). Only used to name the root cause of an accept-then-crash.
+	Opt     string `json:"opt,omitempty"`      // family (i): "<template>|<combination index>"
 	Alt     string `json:"alt,omitempty"`      // same site, no speculation (`$x,` -> `7,`)
 	Alt0    string `json:"alt0,omitempty"`     // same operand alone: `echo E;`
 	AltKind string `json:"alt_kind,omitempty"` // what carries the operand body (names the finding when the operand itself is at fault)
@@ -118,6 +119,9 @@ func check(src string, mode int, run bool) verdict { return checkAlt(src, mode, 
 // is run straight away; only if that does not end in output / a script-level error / exit is the
 // full verdict path (parse-only first, hang attribution, ...) taken.
 func checkAlt(src string, mode int, run bool, altKind string) verdict {
+	if strings.HasPrefix(altKind, optMark) {
+		return checkOpt(src, mode, strings.TrimPrefix(altKind, optMark))
+	}
 	alt, alt0, kind := "", "", ""
 	if p := strings.SplitN(altKind, "\x00", 3); len(p) == 3 {
 		kind, alt, alt0 = p[0], p[1], p[2]
@@ -268,9 +272,15 @@ type strictStop struct{}
 
 func runStrict(src string, mode int, fuel int64) (res runner.Result) {
 	thrown, parsing := false, true
+	var out strings.Builder
+	var last data.Control
 	res = runner.Guard(func() {
 		saved := data.WriteOutput
-		data.WriteOutput = func(string) {}
+		data.WriteOutput = func(s string) {
+			if out.Len() < 1<<16 {
+				out.WriteString(s)
+			}
+		}
 		vshim.CatchExit = true
 		defer func() {
 			vshim.SetFuel(0)
@@ -289,6 +299,7 @@ func runStrict(src string, mode int, fuel int64) (res runner.Result) {
 		php.Load(vm)
 		vm.SetThrowControl(func(acl data.Control) {
 			thrown = true
+			last = acl
 			panic(strictStop{})
 		})
 		var prog *node.Program
@@ -318,8 +329,19 @@ func runStrict(src string, mode int, fuel int64) (res runner.Result) {
 		}
 		if _, acl = prog.GetValue(ctx); acl != nil {
 			thrown = true
+			last = acl
 		}
 	})
+	res.Out = out.String()
+	// A try statement recovers Go panics of its body / catch / finally and re-labels them as a
+	// throwable ("go作用域异常退出的 panic(<text>)\nstack: <go stack>"). Whether that throwable ends the
+	// script or is caught and printed, it is the same internal crash as a bare Go panic.
+	if text, stack, ok := relabelledPanic(res.Out + "\n" + controlText(last)); ok && !parsing {
+		res.Kind = "panic"
+		res.PanicMsg = text
+		res.PanicKey = "panic:" + runner.PanicClass(text) + "@" + runner.FirstFrame(stack)
+		return
+	}
 	switch {
 	case thrown:
 		res.Kind = "throw"
@@ -329,6 +351,35 @@ func runStrict(src string, mode int, fuel int64) (res runner.Result) {
 		res.PanicInParse = true
 	}
 	return
+}
+
+func controlText(acl data.Control) (s string) {
+	if acl == nil {
+		return ""
+	}
+	defer func() { recover() }()
+	if tv, ok := acl.(*data.ThrowValue); ok {
+		if tv.Error != nil {
+			return tv.Error.Error()
+		}
+		return ""
+	}
+	return acl.AsString()
+}
+
+var reRelabelled = regexp.MustCompile(`panic\(([^\n]*)\)\nstack: `)
+
+// relabelledPanic finds the text of a Go panic that origami recovered and turned into a script
+// error. The harness' own unwinding values (fuel, exit, strictStop: printed as {} / {N}) do not count.
+func relabelledPanic(s string) (text, stack string, ok bool) {
+	for _, m := range reRelabelled.FindAllStringSubmatchIndex(s, -1) {
+		text = s[m[2]:m[3]]
+		if strings.HasPrefix(text, "{") && strings.HasSuffix(text, "}") {
+			continue
+		}
+		return text, s[m[1]:], true
+	}
+	return "", "", false
 }
 
 func frameOf(panicKey string) string {
